@@ -281,10 +281,10 @@ Qed.
 
 (* ---- SendAppend ---- *)
 
-Lemma send_msg_ok s l pi k :
+Lemma send_msg_ok s l pi k c :
   linv s -> vinv V s -> role (st s l) = Leader -> (pi <= length (log (st s l)))%nat ->
   msg_ok s (mkReq (cur (st s l)) l pi (term_at (log (st s l)) pi)
-                  (firstn k (skipn pi (log (st s l)))) (commit (st s l))).
+                  (firstn k (skipn pi (log (st s l)))) c).
 Proof.
   intros Hl Hv Hrole Hpi. split; simpl.
   - exact (vf _ _ Hv _ Hrole).
@@ -475,6 +475,11 @@ Proof.
     + intros t0 c0 L0 Hin. left. exact Hin.
     + intros m Hin. left. exact Hin.
     + intros n0. pose proof (l_fl _ Hl n0). node_obl.
+  - (* flush *)
+    apply (linv_frame s); [exact Hl | reflexivity | reflexivity | | |]; unfold do_flush; simpl.
+    + intros t0 c0 L0 Hin. left. exact Hin.
+    + intros m Hin. left. exact Hin.
+    + intros n0. pose proof (l_fl _ Hl n0). upd_case n0 n; simpl; node_obl.
 Qed.
 
 Lemma reachable_inv s : Reachable V s -> vinv V s /\ linv s.
